@@ -108,9 +108,13 @@ def f1_effects(ctx):
               'copy_files does not copy source -> output')
     ci = repo.func(ALF, '_copy_if_possible')
     sc = [c for c in ci.calls() if (dotted(c.func) or '').startswith('shutil.')]
-    ctx.check(bool(sc) and dotted(sc[0].func) in ('shutil.copy', 'shutil.copyfile', 'shutil.copy2') and [unparse(a) for a in sc[0].args[:2]] == ci.params[:2],
-              'C13.F1', ci, sc[0] if sc else '_copy_if_possible', '_copy_if_possible copies (never moves) path -> new_path',
-              '_copy_if_possible does not copy (path, new_path) with shutil.copy: `%s`' % (unparse(sc[0]) if sc else 'no shutil call'))
+    sc_args = [ci.expand(a) for a in sc[0].args[:2]] if sc else []
+    copies = bool(sc) and dotted(sc[0].func) in ('shutil.copy', 'shutil.copyfile', 'shutil.copy2')
+    straight = len(sc_args) == 2 and all(Pat().any([p_, 'str(%s)' % p_, 'Path(%s)' % p_], x) for x, p_ in zip(sc_args, ci.params[:2]))
+    swapped = len(sc_args) == 2 and all(Pat().any([p_, 'str(%s)' % p_], x) for x, p_ in zip(sc_args, ci.params[:2][::-1]))
+    moves = bool(sc) and dotted(sc[0].func) in ('shutil.move', 'os.rename', 'os.replace', 'shutil.copytree')
+    ctx.tri(copies and straight, moves or (copies and swapped), 'C13.F1', ci, sc[0] if sc else '_copy_if_possible', '_copy_if_possible copies (never moves) path -> new_path',
+            '_copy_if_possible does not copy (path, new_path) with shutil.copy: `%s`' % (unparse(sc[0]) if sc else 'no shutil call'), 'the copy primitive of _copy_if_possible was not recognised')
     return f, sites
 
 
@@ -260,8 +264,13 @@ def t1_names(ctx):
         conds = [ifn for ifn, br in q.enclosing_ifs(rl, rn[0]) if any(q.contains(l_, ifn) for l_ in loops_)]
         ctx.check(not skips and not conds, 'C13.T1', rl, (skips or conds or [rn[0]])[0], 'every file matched by the label patterns is renamed (no per-file exception)',
                   'some matched files are not renamed (`%s`): the label is not inserted into every object file' % unparse((conds or skips)[0] if (conds or skips) else rn[0])[:80])
-    guard = [i for i in rl.nodes(ast.If) if unparse(i.test).replace(' ', '') in ('notself.label', "self.label==''", 'self.labelisNone') and any(isinstance(x, ast.Return) for x in i.body)]
-    ctx.check(bool(guard), 'C13.T1', rl, guard[0] if guard else 'rename_with_label', 'an empty label renames nothing', 'an empty label is not a no-op')
+    guard = [i for i in rl.nodes(ast.If) if Pat().any(['not self.label', "self.label == ''", 'self.label is None', 'not self.label or ANY', "self.label in ('', None)", 'len(self.label) == 0'], i.test) and
+             any(isinstance(x, ast.Return) for x in i.body)]
+    guard += [i for i in rl.nodes(ast.If) if Pat().any(['self.label', "self.label != ''", 'self.label is not None'], i.test) and not i.orelse and
+              all(q.contains(i, c_) for c_ in rl.calls() if q.method_name(c_) in ('rename', 'replace'))]
+    mentions_label_test = any(any(isinstance(n, ast.Attribute) and n.attr == 'label' for n in ast.walk(i.test)) for i in rl.nodes(ast.If))
+    ctx.tri(bool(guard), not guard and not mentions_label_test, 'C13.T1', rl, guard[0] if guard else 'rename_with_label', 'an empty label renames nothing', 'an empty label is not a no-op',
+            'the test on an empty label was not recognised')
     # order in convert: rename after all files are written, compression after rename (finds labelled names)
     conv = repo.lookup_method(cls, 'convert')
     order = [q.method_name(c) for c in conv.calls() if isinstance(c.func, ast.Attribute) and unparse(c.func.value) in ('self', 'self.model')]
@@ -314,8 +323,10 @@ def u1_h1(ctx):
     saves = {const_value(c.args[0]): c for c in mt.calls() if q.method_name(c) == '_save_npy' and c.args and isinstance(const_value(c.args[0]), str)}
     for nm, src, what in (('spikes.times.npy', 'self.model.spike_times', 'spike times in seconds'), ('spikes.samples.npy', 'self.model.spike_samples', 'spike samples')):
         c = saves.get(nm)
-        ctx.check(c is not None and len(c.args) >= 2 and unparse(c.args[1]) == src, 'C13.U1', mt, c or nm, '%s is written from the model\'s %s' % (nm, what),
-                  '%s is written from `%s`, not from the model\'s %s' % (nm, unparse(c.args[1]) if c is not None and len(c.args) > 1 else '?', what))
+        v_x = mt.expand(c.args[1]) if c is not None and len(c.args) >= 2 else None
+        other_attr = v_x is not None and not Pat().m(src, v_x) and isinstance(v_x, ast.Attribute) and Pat().m('self.model', v_x.value)
+        ctx.tri(v_x is not None and Pat().m(src, v_x), other_attr, 'C13.U1', mt, c or nm, '%s is written from the model\'s %s' % (nm, what),
+                '%s is written from `%s`, not from the model\'s %s' % (nm, unparse(v_x) if v_x is not None else '?', what), '%s: what is written was not recognised' % nm)
     mc = repo.lookup_method(cls, 'make_cluster_objects')
     # the uuid file: header line 'uuids' + one fresh uuid4 per ROW of the cluster tables. The lines are either one expression
     # (['uuids'] + [str(uuid.uuid4()) for _ in range(n)]) or a list started with the header and extended by the comprehension
